@@ -102,6 +102,10 @@ func C08(env *Env) {
 	// never crashes, for every options value (no precondition on option lengths)
 	env.safetyOf("C08", "validate", "TdxQuote")
 	env.safetyOf("C08", "validate", "RawTdxQuote", "validate.TdxQuote")
+	if f := env.fn("validate", "TdxQuote"); f != nil {
+		env.errorsNotLost("C08/ERRFLOW", inPackages(env.calleesBelow(f), "validate"))
+	}
+	r.Floor("C08/ERRFLOW", 5)
 	r.Floor("C08/B1", 10)
 	r.Floor("C08/B2", 10)
 	r.Floor("C08/LEAF", 3)
@@ -439,6 +443,13 @@ func (env *Env) c08Top() {
 
 // C14: a policy message means the same after conversion to validation options.
 func C14(env *Env) {
+	c14Own(env)
+	// "a policy that converts can neither crash validation nor be partly ignored":
+	// the validation side is decided by C08's rules
+	env.via("C08", C08)
+}
+
+func c14Own(env *Env) {
 	r := env.R
 	r.Explanation = "PolicyToOptions: every field of validate.HeaderOptions / TdQuoteBodyOptions of the returned object is the same-named field of the policy message (name-normalised bijection, also exhaustive over the policy messages' fields), the two 16-bit minimums behind 'policy value <= 65535' gates, and checkOptionsLengths(opts) == nil enforced before success. checkOptionsLengths returns multierr.Combine of one lengthCheck / lengthCheckMany per byte-string option field (exhaustive over the option structs), each with the abi size constant of the same name — the same constants abi.CheckQuoteV4 and validation use. lengthCheck succeeds only for nil or exact length; lengthCheckMany for an empty list, or entries each empty or of exact length (and, for RTMRs, exactly four)."
 	r.TrustedBase = []string{"generated protobuf getters (shape verified), go.uber.org/multierr", "go/ssa, go/types"}
